@@ -286,6 +286,9 @@ struct Img {
     /// width in pixels, height in sixel bands
     w: u8,
     bands: u8,
+    /// the payload holds a character that is no sixel data: the decode fails (the poll that meets it returns Err and loses only this image)
+    #[serde(default)]
+    bad: bool,
 }
 
 #[derive(Clone, Debug, Hash, Serialize, Deserialize)]
@@ -295,7 +298,7 @@ struct Placement {
 
 fn placements() -> BoxedStrategy<Placement> {
     // positions on a coarse grid so that images frequently cover each other
-    let img = (0u8..=3, 0u8..=2, prop_oneof![Just(8u8), Just(16), Just(24), Just(40)], 1u8..=6).prop_map(|(c, r, w, b)| Img { col: c * 2, row: r * 2, w, bands: b });
+    let img = (0u8..=3, 0u8..=2, prop_oneof![Just(8u8), Just(16), Just(24), Just(40)], 1u8..=6, prop::bool::weighted(0.12)).prop_map(|(c, r, w, b, bad)| Img { col: c * 2, row: r * 2, w, bands: b, bad });
     // half of the later images are made to cover an earlier one exactly or generously (same origin, size >=)
     let cover = (any::<bool>(), any::<u16>(), 0u8..=2, 0u8..=2);
     proptest::collection::vec((img, cover), 1..=MAX_IMGS)
@@ -304,7 +307,7 @@ fn placements() -> BoxedStrategy<Placement> {
             for (im, (do_cover, which, dw, db)) in v {
                 if do_cover && !imgs.is_empty() {
                     let t = imgs[icyv::util::pick(which, imgs.len())].clone();
-                    imgs.push(Img { col: t.col, row: t.row, w: t.w.saturating_add(dw * 8), bands: (t.bands + db).min(8) });
+                    imgs.push(Img { col: t.col, row: t.row, w: t.w.saturating_add(dw * 8), bands: (t.bands + db).min(8), bad: false });
                 } else {
                     imgs.push(im);
                 }
@@ -317,7 +320,7 @@ fn placements() -> BoxedStrategy<Placement> {
 const MAX_IMGS: usize = 4;
 
 fn placements_seq() -> BoxedStrategy<Placement> {
-    let img = (0u8..=5, 0u8..=3, prop_oneof![Just(8u8), Just(16), Just(24), Just(40)], 1u8..=6).prop_map(|(c, r, w, b)| Img { col: c * 2, row: r * 2, w, bands: b });
+    let img = (0u8..=5, 0u8..=3, prop_oneof![Just(8u8), Just(16), Just(24), Just(40)], 1u8..=6, prop::bool::weighted(0.12)).prop_map(|(c, r, w, b, bad)| Img { col: c * 2, row: r * 2, w, bands: b, bad });
     let cover = (any::<bool>(), any::<u16>(), 0u8..=2, 0u8..=2);
     proptest::collection::vec((img, cover), 1..=7)
         .prop_map(|v| {
@@ -325,7 +328,7 @@ fn placements_seq() -> BoxedStrategy<Placement> {
             for (im, (do_cover, which, dw, db)) in v {
                 if do_cover && !imgs.is_empty() {
                     let t = imgs[icyv::util::pick(which, imgs.len())].clone();
-                    imgs.push(Img { col: t.col, row: t.row, w: t.w.saturating_add(dw * 8), bands: (t.bands + db).min(8) });
+                    imgs.push(Img { col: t.col, row: t.row, w: t.w.saturating_add(dw * 8), bands: (t.bands + db).min(8), bad: false });
                 } else {
                     imgs.push(im);
                 }
@@ -353,16 +356,19 @@ fn check_sequential(p: &Placement) -> Verdict {
             }
             std::thread::yield_now();
         }
-        if let Err(e) = buf.update_sixel_threads() {
-            return Verdict::fail("sequential.poll_err", format!("update_sixel_threads returned {e:?} for a valid image"));
+        let res = buf.update_sixel_threads();
+        if res.is_err() != img.bad {
+            return Verdict::fail("sequential.poll_result", format!("image {j} (undecodable: {}): update_sixel_threads returned {res:?}", img.bad));
         }
-        let r = rect_of(img, font);
-        let before = screen.clone();
-        screen.retain(|old| !r.contains_rect(&rect_of(&p.imgs[*old], font)));
-        if before.len() != screen.len() && before.last().map(|l| screen.contains(l)).unwrap_or(false) && screen.len() >= 2 {
-            removed_non_newest = true;
+        if !img.bad {
+            let r = rect_of(img, font);
+            let before = screen.clone();
+            screen.retain(|old| !r.contains_rect(&rect_of(&p.imgs[*old], font)));
+            if before.len() != screen.len() && before.last().map(|l| screen.contains(l)).unwrap_or(false) && screen.len() >= 2 {
+                removed_non_newest = true;
+            }
+            screen.push(j);
         }
-        screen.push(j);
         let want: Vec<(i32, i32, i32, i32)> = screen.iter().map(|i| (p.imgs[*i].col as i32, p.imgs[*i].row as i32, p.imgs[*i].w as i32, p.imgs[*i].bands as i32 * 6)).collect();
         let got = screen_of(&buf);
         if got != want {
@@ -379,6 +385,9 @@ fn check_sequential(p: &Placement) -> Verdict {
 
 fn img_payload(i: &Img) -> String {
     let mut s = String::new();
+    if i.bad {
+        return format!("!{}~ ~", i.w);
+    }
     for b in 0..i.bands {
         if b > 0 {
             s.push('-');
@@ -420,16 +429,21 @@ fn rect_of(img: &Img, font: Size) -> Rectangle {
 }
 
 /// model of one poll: move the maximal finished prefix of the queue to the screen, applying the containment rule
-fn model_poll(queue: &mut std::collections::VecDeque<usize>, finished: &[bool], screen: &mut Vec<usize>, p: &Placement, font: Size) {
+fn model_poll(queue: &mut std::collections::VecDeque<usize>, finished: &[bool], screen: &mut Vec<usize>, p: &Placement, font: Size) -> bool {
     while let Some(&front) = queue.front() {
         if !finished[front] {
             break;
         }
         queue.pop_front();
+        if p.imgs[front].bad {
+            // a failed decode is reported by this poll; everything behind it stays queued for the next poll
+            return true;
+        }
         let r = rect_of(&p.imgs[front], font);
         screen.retain(|old| !r.contains_rect(&rect_of(&p.imgs[*old], font)));
         screen.push(front);
     }
+    false
 }
 
 fn screen_of(buf: &Buffer) -> Vec<(i32, i32, i32, i32)> {
@@ -501,7 +515,12 @@ fn check_schedules(p: &Placement) -> Verdict {
                     std::thread::yield_now();
                 }
                 finished[j] = true;
-                if poll_mask & (1 << step) != 0 || step + 1 == k {
+                // after the last release poll until the queue is drained (a poll stops at a failed decode)
+                let polls_here = if step + 1 == k { k + 1 } else { usize::from(poll_mask & (1 << step) != 0) };
+                for poll_no in 0..polls_here {
+                    if poll_no > 0 && queue.is_empty() && buf.sixel_threads.is_empty() {
+                        break;
+                    }
                     let before = queue.len();
                     let t = Instant::now();
                     let r = buf.update_sixel_threads();
@@ -509,11 +528,14 @@ fn check_schedules(p: &Placement) -> Verdict {
                         icy_engine::verif::sixel_gate_arm(false);
                         return Verdict::fail("schedule.poll_blocked", "update_sixel_threads took > 2 s while other decodes were held".to_string());
                     }
-                    if r.is_err() {
+                    let met_failed_decode = model_poll(&mut queue, &finished, &mut screen, p, font);
+                    if r.is_err() != met_failed_decode {
                         icy_engine::verif::sixel_gate_arm(false);
-                        return Verdict::fail("schedule.poll_err", format!("update_sixel_threads returned {r:?} for valid images"));
+                        return Verdict::fail(
+                            "schedule.poll_result",
+                            format!("completion order {perm:?}, poll mask {poll_mask:#b}: update_sixel_threads returned {r:?}, the model {} a failed decode in this poll", if met_failed_decode { "meets" } else { "does not meet" }),
+                        );
                     }
-                    model_poll(&mut queue, &finished, &mut screen, p, font);
                     popped += before - queue.len();
                     let want: Vec<(i32, i32, i32, i32)> = screen.iter().map(|i| (p.imgs[*i].col as i32, p.imgs[*i].row as i32, p.imgs[*i].w as i32, p.imgs[*i].bands as i32 * 6)).collect();
                     let got = screen_of(&buf);
